@@ -187,7 +187,10 @@ def v1_layout(run):
             tt = new_input(E3, "T", "uint8", [N, 8 * C], device="cuda")
             ts = tt.snap()
             packed = STensor("int32", [N, C], lambda idx: _spec(E3, ts, idx, order), device=Device("cuda"))
-            return E3.call(E3.get(f"{AWQP}::unpack"), [packed], {"reorder": reorder})
+            before = lib.module_containers(E3, AWQP)
+            out = E3.call(E3.get(f"{AWQP}::unpack"), [packed], {"reorder": reorder})
+            E3.ps["module_state"] = (before, lib.module_containers(E3, AWQP))
+            return out
 
         try:
             res2 = E2.explore(Builtin("v1unpack", prog2), lambda E3: ([], {}), name="C15.v1.unpack")
@@ -203,6 +206,9 @@ def v1_layout(run):
                 continue
             E2.focus(r)
             u = r.value
+            st0, st1 = r.ps.get("module_state", ({}, {}))
+            run.add(f"C15/v1-unpack-keeps-no-state-between-calls[{tag}]/path{pi}", r.hyps, z3.BoolVal(st0 == st1), "property", inst,
+                    {"changed": sorted(k for k in set(st0) | set(st1) if st0.get(k) != st1.get(k))}, replay=rp)
             run.add(f"C15/v1-unpacked-shape[{tag}]/path{pi}", r.hyps, lib.shape_eq(u.shape, [N, 8 * C]), "property", inst, replay=rp)
             jds, jnb = idx_vars("u", [N, 8 * C])
             got = u.elem(jds)
